@@ -8,10 +8,12 @@ import (
 	"net/http"
 	"net/url"
 	"runtime"
+	"runtime/debug"
 	"sort"
 	"strconv"
 	"strings"
 	"sync"
+	"sync/atomic"
 	"testing"
 	"time"
 
@@ -149,17 +151,28 @@ func (s *scripted) Close() error { s.closed++; return nil }
 // ---------------------------------------------------------------- recording writer
 
 type recorder struct {
-	mu     sync.Mutex
-	writes [][]byte
-	yield  int
+	mu      sync.Mutex
+	writes  [][]byte
+	yield   int
+	inside  int32 // Write calls in progress
+	overlap int32 // set when two Write calls were in progress at once
+	fence   string
+	fenced  int32 // set when a frame carrying the fence ID has been written
 }
 
 func (r *recorder) Write(b []byte) (int, error) {
+	if atomic.AddInt32(&r.inside, 1) > 1 {
+		atomic.StoreInt32(&r.overlap, 1)
+	}
+	defer atomic.AddInt32(&r.inside, -1)
 	for i := 0; i < r.yield; i++ {
 		runtime.Gosched()
 	}
 	r.mu.Lock()
 	r.writes = append(r.writes, append([]byte(nil), b...))
+	if r.fence != "" && len(b) >= 10 && string(b[2:10]) == r.fence {
+		atomic.StoreInt32(&r.fenced, 1)
+	}
 	r.mu.Unlock()
 	return len(b), nil
 }
@@ -401,6 +414,11 @@ func runLog(c LogCase) kit.Verdict {
 		go func(i int) {
 			defer wg.Done()
 			m, b := c.Msgs[i], bs[i]
+			defer func() {
+				if r := recover(); r != nil {
+					addf("C19/logging/"+mtName(m.Resp)+"/panic", "message %d: logging or reading the body panicked: %v\n%s", i, r, debug.Stack())
+				}
+			}()
 			<-start
 			var wrapped io.ReadCloser
 			var err error
@@ -479,8 +497,9 @@ func runLog(c LogCase) kit.Verdict {
 		return kit.Failf("C19/logging/"+conc+"/logging-did-not-finish", "logging %d messages and reading their bodies did not finish within %v\n%s", len(c.Msgs), 4*kit.T(), kit.GoroutineDump(reMarbl))
 	}
 
-	// fence: once a further message has been accepted, the stream's single
-	// writer has finished writing every frame handed to it before.
+	// fence: the stream writes frames in the order it accepted them, so once
+	// a frame of a message logged after all the others has reached the writer,
+	// every frame of the others has.
 	fence, _ := http.NewRequest("GET", "http://fence.invalid/", nil)
 	fctx, frm, err := martian.TestContext(fence, nil, nil)
 	if err != nil {
@@ -491,6 +510,9 @@ func runLog(c LogCase) kit.Verdict {
 	if c.Modifier {
 		fenceID = fctx.ID()[:8]
 	}
+	rec.mu.Lock()
+	rec.fence = fenceID
+	rec.mu.Unlock()
 	fdone := make(chan struct{})
 	go func() {
 		defer close(fdone)
@@ -498,11 +520,21 @@ func runLog(c LogCase) kit.Verdict {
 			mod.ModifyRequest(fence)
 		} else {
 			stream.LogRequest(fenceID, fence)
-			stream.Close()
 		}
 	}()
-	if !waitBounded("logging", fdone) {
-		return kit.Failf("C19/logging/"+conc+"/logging-did-not-finish", "a further message logged after all others was not accepted within %v", 4*kit.T())
+	fenced := func() bool { return atomic.LoadInt32(&rec.fenced) != 0 }
+	if !waitBounded("logging", fdone) || !kit.Eventually(kit.T(), fenced) {
+		if !kit.Eventually(3*kit.T(), fenced) {
+			return kit.Failf("C19/logging/"+conc+"/logging-did-not-finish", "no frame of a further message logged after all others reached the writer within %v", 4*kit.T())
+		}
+		kit.Inconclusive("logging")
+	}
+	if stream != nil {
+		cdone := make(chan struct{})
+		go func() { stream.Close(); close(cdone) }()
+		if !waitBounded("logging", cdone) {
+			return kit.Failf("C19/logging/"+conc+"/logging-did-not-finish", "Stream.Close did not return within %v", 4*kit.T())
+		}
 	}
 	if len(fails) > 0 {
 		return fails
@@ -517,6 +549,11 @@ func runLog(c LogCase) kit.Verdict {
 
 	// ---- the recording
 	writes := rec.snapshot()
+	if atomic.LoadInt32(&rec.overlap) != 0 {
+		// an io.Writer need not be safe for concurrent use: frames handed to it
+		// from several goroutines at once can interleave inside the writer
+		fails.Addf("C19/tearing/"+conc+"/overlapping-write-calls", "two Write calls on the stream's writer were in progress at the same time")
+	}
 	var all []byte
 	for wi, w := range writes {
 		fr, st, _ := parseAll(w)
@@ -870,7 +907,7 @@ func logNonTrivial(c LogCase) bool {
 var propLogging = &kit.Prop[LogCase]{
 	ID: "C19", Name: "logging",
 	Rule: "1..8 requests/responses (URL parts, header multisets incl. large and non-canonical fields, Host/Content-Length/Transfer-Encoding fields, API flag, request/response pairs sharing an ID) logged concurrently to one marbl stream over a recording writer, directly or through marbl.Modifier; bodies are scripted readers (0..1 MiB in chunks, empty reads, EOF with or after the last bytes, or a read error) consumed with generated buffer-size sequences, optional early stop and reads past the end; the recording is parsed with marbl.Reader and an independent parser and compared per (ID, type) with the message and with the reads the consumer made; a twin of the script gives the expected Read results; non-trivial = a body spanning >= 3 reads, an empty body, >= 2 concurrent messages or an early stop",
-	Run:  runLog, NonTrivial: logNonTrivial, Classes: logClasses,
+	Run:  runLog, NonTrivial: logNonTrivial, Classes: logClasses, Journal: true,
 	Gates: map[string]float64{"nontrivial": 0.5, "concurrent>=2": 0.4, "body-spans>=3-reads": 0.4, "empty-body": 0.15, "early-stop": 0.1, "through-modifier": 0.15, "eof-with-final-bytes": 0.1, "request-response-pair": 0.1},
 	Gen: func(t *rapid.T) LogCase {
 		c := LogCase{Modifier: rapid.IntRange(0, 3).Draw(t, "modifier") == 0}
